@@ -1,6 +1,6 @@
 (** C08 — reported dependencies; graph and cache agree. *)
 From Coq Require Import List ZArith Bool.
-From MX Require Import Exec.Model Exec.Spec Exec.Sim Exec.Reads Exec.Cover Exec.Quiet Exec.Edits3 Exec.Results Exec.Top.
+From MX Require Import Exec.Model Exec.Spec Exec.Sim Exec.Reads Exec.Cover Exec.Quiet Exec.Edits3 Exec.Edits4 Exec.Edits6 Exec.Results Exec.Top.
 Import ListNotations.
 
 (** In every quiescent state reached by any history of evaluations, cache
@@ -29,7 +29,7 @@ Print Assumptions C08_graph_matches_cache_partial.
 
 (** and [Quiet] is what every history reaches *)
 Theorem C08_reachable_states_quiet : forall fuel ops st xs st',
-  run fuel st ops = (xs, st') -> no_fuel_out xs -> Quiet st -> s_reent st = false -> ops_ok ops ->
-  s_reent st' = true \/ Quiet st'.
-Proof. exact run_quiet. Qed.
+  run fuel st ops = (xs, st') -> no_fuel_out xs -> Quiet st -> refn_ok st -> s_reent st = false ->
+  ops_ok2 fuel st ops -> s_reent st' = true \/ (Quiet st' /\ refn_ok st').
+Proof. exact run_quiet2. Qed.
 Print Assumptions C08_reachable_states_quiet.
